@@ -97,7 +97,10 @@ func histStarts(thorough bool) []histStart {
 			// Modified metrics that differ from their base metrics, in both directions
 			vecs = append(vecs,
 				"CVSS:3.0/AV:N/AC:L/PR:L/UI:R/S:U/C:L/I:H/A:H/E:F/RL:W/RC:R/AR:L/MAV:L/MPR:H/MS:C/MC:H",
-				"CVSS:3.1/AV:L/AC:H/PR:H/UI:N/S:C/C:H/I:L/A:N/CR:H/MAC:L/MUI:R/MS:U/MI:N/MA:H")
+				"CVSS:3.1/AV:L/AC:H/PR:H/UI:N/S:C/C:H/I:L/A:N/CR:H/MAC:L/MUI:R/MS:U/MI:N/MA:H",
+				// vectors whose environmental score differs between 3.0 and 3.1 (changed effective scope)
+				"CVSS:3.1/AV:N/AC:L/PR:N/UI:R/S:U/C:L/I:H/A:H/AR:L/MS:C",
+				"CVSS:3.0/AV:N/AC:L/PR:L/UI:N/S:C/C:H/I:H/A:H/E:P/RL:O/RC:X/CR:H/IR:H/AR:H")
 		}
 		for si, s := range vecs {
 			s := s
@@ -263,6 +266,17 @@ func histOps(thorough bool) []histOp {
 		vv := vv
 		ops = append(ops, histOp{name: "set Ver=" + vv.n, kind: 'm', ok: func(s *histStart) bool { return s.ver == 3 && !s.isNil }, run: func(o any) string { lib.SetV3Ver(o, vv.v); return "" }})
 	}
+	// a second Decode on the live object that supplies only metrics it does not hold yet (the
+	// library's decoders accept vectors in instalments); judged differentially like any mutation
+	for _, inst := range []struct {
+		ver, level int
+		s          string
+	}{{3, 1, "CVSS:3.1/E:U/RL:O/RC:U"}, {3, 2, "CVSS:3.1/E:U/RL:O/RC:U/CR:H/MS:C"}, {3, 2, "CVSS:3.0/MAV:P/AR:L"}, {2, 1, "E:U/RL:OF/RC:UC"}, {2, 2, "CDP:H/TD:H/CR:L/IR:L/AR:L"}} {
+		inst := inst
+		ops = append(ops, histOp{name: "Decode(" + inst.s + ") on the same object", kind: 'm',
+			ok:  func(s *histStart) bool { return !s.isNil && s.ver == inst.ver && s.level == inst.level && s.decoded },
+			run: func(o any) string { lib.Decode(o, inst.s); return "" }})
+	}
 	ops = append(ops, histOp{name: "replace the embedded lower-level object by that of another decoded vector", kind: 'm',
 		ok: func(s *histStart) bool { return !s.isNil && s.level >= 1 && (thorough || s.decoded) },
 		run: func(o any) string {
@@ -372,12 +386,12 @@ func histRun(r *ev.Run, thorough bool) {
 		st := &starts[si]
 		seen := map[[32]byte]bool{}
 		o0 := st.make()
+		seen[histKey(o0)] = true // the state key is taken before anything is queried
 		obs0 := safeRun(func() string { return observables(o0) })
 		if st.isNil {
 			obs0 = safeRun(func() string { return lib.Observe(o0).String() })
 		}
 		firstObs[logicalKey(si, ops, nil)] = obs0
-		seen[histKey(o0)] = true
 		states++
 		frontier := []histPath{{}}
 		for d := 0; d < depth && len(frontier) > 0; d++ {
@@ -407,7 +421,7 @@ func histRun(r *ev.Run, thorough bool) {
 						// recorded for the mutated state comes from the shortest history)
 						before = obsOf()
 					}
-					dumpBefore := dump.Of(o)
+					dumpBefore := ""
 					res := safeRun(func() string { return op.run(o) })
 					transitions++
 					outcomes[res] = true
@@ -454,10 +468,20 @@ func histRun(r *ev.Run, thorough bool) {
 							firstPath["obs|"+lk2] = describePath(st, ops, full)
 						}
 					}
-					if op.kind != 'm' && dump.Of(o) != dumpBefore {
+					// the successor's state key comes from a second, unobserved replay: the harness's own
+					// observation queries must not be part of the state (a memo filled by them would make
+					// "queried" and "not yet queried" look alike)
+					oc := st.make()
+					for _, pi := range p.ops {
+						pi := pi
+						safeRun(func() string { return ops[pi].run(oc) })
+					}
+					dumpBefore = dump.Of(oc)
+					safeRun(func() string { return op.run(oc) })
+					if op.kind != 'm' && dump.Of(oc) != dumpBefore {
 						dumpChanged++
 					}
-					k := histKey(o)
+					k := histKey(oc)
 					if seen[k] {
 						continue
 					}
